@@ -146,6 +146,8 @@ def cases(ctx):
     # size-one shortcut must still skip it under skipna
     for dts in (['float64', 'object', 'int64'], ['object', 'float64'], ['float64', 'object'], ['float64', 'float64', 'object'], ['object', 'object']):
         for miss in range(len(dts)):
+            if dts[miss] not in ('float64', 'object'):
+                continue
             vals = []
             for j, dt in enumerate(dts):
                 if j == miss:
@@ -1004,9 +1006,17 @@ def classify(f):
     # R9 Boolean next to numeric columns: the row dtype is object, and the consolidated object array breaks the float statistics
     if fn in TOL_FNS and axis == 1 and row_kind == 'O' and exc == 'TypeError':
         return 'F38-c15-bool-number-row-dtype-object'
+    # R14 min / max with skipna of a 1-D object vector holding only NaN: np.nanmin / np.nanmax raise AttributeError
+    if fn in ('min', 'max') and sk is True and row_kind == 'O' and any(l and all(t == 'nan' for t in l) for l in lines) and \
+            (exc == 'AttributeError' or (kind == 'layout_err_vs_ok' and d.get('exc') == 'AttributeError')):
+        return 'F45-c15-object-all-nan-minmax-attributeerror'
     # R4 an all-missing object vector: the 1-D object path answers NaN, the 2-D path the identity
+    # (axis 0: the all-missing vector must be a column held as object - a float column of a one-row frame is reduced by the
+    # float code and answers the identity on this tree)
+    def _obj_line(j):
+        return axis == 1 or (j < len(dts) and dts[j] == 'object') or rows != 1
     if sk is True and fn in ('sum', 'prod', 'min', 'max', 'all', 'any') and row_kind == 'O' and \
-            any(l and all(t in MISSING_TOKS for t in l) for l in lines) and kind in ('value', 'layout_value'):
+            any(l and all(t in MISSING_TOKS for t in l) and _obj_line(j) for j, l in enumerate(lines)) and kind in ('value', 'layout_value'):
         return 'F40-c15-object-all-missing-vector'
     if rows == 0 and 'object' in dts and fn in ('min', 'max', 'sum', 'prod') and (exc == 'ValueError' or kind in ('value', 'layout_value', 'layout_err_vs_ok')):
         return 'F40-c15-object-all-missing-vector'
@@ -1016,7 +1026,10 @@ def classify(f):
             any('nan' in l and any(t not in MISSING_TOKS for t in l) for l in lines):
         return 'F43-c15-object-minmax-nan-order-dependent'
     # R3 axis 0, several blocks, object row dtype: every block is cast to object first and takes the object code path
-    if axis == 0 and multi and row_kind == 'O' and fn in ('sum', 'prod', 'min', 'max') and any(x != 'object' for x in dts):
+    # (the documented faces of it: an empty column, min / max without skipna, a datetime column, a vector that is missing
+    # throughout in a frame of two or more rows; a one-row frame reduces every cell by its own value on this tree)
+    if axis == 0 and multi and row_kind == 'O' and fn in ('sum', 'prod', 'min', 'max') and any(x != 'object' for x in dts) and \
+            (rows != 1 or (fn in ('min', 'max') and sk is False) or any(x.startswith(('datetime', 'timedelta')) for x in dts)):
         return 'F39-c15-blocks-precast-to-object-row-dtype'
     return None
 
